@@ -77,6 +77,7 @@ func main() {
 		}
 		os.Exit(1)
 	}
+	c.VerifDir = *verif
 	if *list {
 		for _, fn := range c.Fns {
 			fmt.Println(short(fn))
